@@ -1294,6 +1294,60 @@ class _SmallestFirstAcc(Acc):
         return self
 
 
+def ocb_long_case(acc, where, nblocks, extra):
+    """OCB with more than 2^16 blocks of message or of associated data (block indexes whose ntz() is 16): the library's
+    ciphertext and tag against the reference OCB, then block swaps across index 65536 offered back."""
+    from Crypto.Cipher import AES
+    from ..ref import modes, aes
+    key, nonce = bytes(range(16)), bytes(range(12))
+    big = (asc(251) * ((nblocks * 16 + extra) // 251 + 1))[:nblocks * 16 + extra]
+    aad, pt = (big, b"tiny message") if where == "aad" else (b"hdr", big)
+    acc.count("evaluations")
+    acc.count("ocb_long_cases")
+    acc.seen("classes", ("OCB-long", where, nblocks, extra))
+    case = {"part": "ocb-long", "where": where, "nblocks": nblocks, "extra": extra}
+    ect, etag = modes.ocb_encrypt(aes.AES(key), nonce, aad, pt)
+
+    def lib_open(a, c, t):
+        o = AES.new(key, AES.MODE_OCB, nonce=nonce)
+        o.update(a)
+        try:
+            return ("accept", o.decrypt_and_verify(c, t))
+        except ValueError:
+            return ("reject", None)
+    o = AES.new(key, AES.MODE_OCB, nonce=nonce)
+    o.update(aad)
+    ct, tag = o.encrypt_and_digest(pt)
+    if ct != ect or tag != etag:
+        acc.violation("C01/OCB/long-%s/not-the-specified-ciphertext-or-tag" % where,
+                      "OCB, %s of %d blocks + %d bytes: the library's ciphertext/tag differ from RFC 7253 (first differing ciphertext "
+                      "block %s; tag %s, specified %s)" % (where, nblocks, extra,
+                                                           next((i // 16 + 1 for i in range(0, len(ect), 16) if ct[i:i + 16] != ect[i:i + 16]), "-"),
+                                                           tag.hex(), etag.hex()), case)
+    r = lib_open(aad, ect, etag)
+    if r != ("accept", pt):
+        acc.violation("C01/OCB/long-%s/authentic-tuple-refused" % where, "OCB, %s of %d blocks + %d bytes: the RFC 7253 tuple is %s"
+                      % (where, nblocks, extra, r[0]), case)
+    for i, j in ((65534, 65536), (65535, 65537), (65536, 65537), (1, 65536)):
+        if j > nblocks:
+            continue
+        b = bytearray(aad if where == "aad" else ect)
+        b[(i - 1) * 16:i * 16], b[(j - 1) * 16:j * 16] = b[(j - 1) * 16:j * 16], b[(i - 1) * 16:i * 16]
+        acc.count("evaluations")
+        r = lib_open(bytes(b), ect, etag) if where == "aad" else lib_open(aad, bytes(b), etag)
+        if r[0] == "accept":
+            acc.violation("C01/OCB/long-%s/block-swap-accepted" % where,
+                          "OCB, %s of %d blocks + %d bytes: the tuple with %s blocks %d and %d exchanged is accepted"
+                          % (where, nblocks, extra, where, i, j), case)
+
+
+def ocb_long_worker(shard):
+    acc = Acc()
+    for where, nblocks, extra in shard:
+        ocb_long_case(acc, where, nblocks, extra)
+    return acc
+
+
 def _pmap(ctx, fn, shards):
     from ..common import pmap
     ctx.acc.merge(pmap(fn, shards, ctx.workers, _SmallestFirstAcc()))
@@ -1321,6 +1375,9 @@ def run(ctx):
     ks = kw_shards(q)
     _pmap(ctx, kw_worker, _interleave(ks, max(32, ctx.workers * 2)))
     phases["kw"] = round(time.time() - t, 1)
+    olong = [("msg", 65538, 5), ("aad", 65537, 3)] + ([] if q else [("msg", 131073, 0), ("aad", 131074, 15), ("msg", 65536, 0)])
+    _pmap(ctx, ocb_long_worker, [[c] for c in olong])
+    ctx.require(ctx.acc.n.get("ocb_long_cases", 0) == len(olong), "OCB long-input cases did not all run")
 
     a = ctx.acc
     shapes = a.distinct.get("shapes", set())
@@ -1439,5 +1496,7 @@ def replay(case, acc):
                        case["ct"], case["tag"], acc)
     elif part == "kw":
         check_kw(case["mode"], case["key"], case["wrapped"], case["kind"], case.get("detail", ""), acc)
+    elif part == "ocb-long":
+        ocb_long_case(acc, case["where"], case["nblocks"], case["extra"])
     else:
         acc.error("unknown replay part %r" % (part,))
